@@ -465,6 +465,29 @@ def run(tier, seed):
                 continue
             rep.violation({"kind": "lookup-encode", "table": name}, "lookup_encode_%s(%r) = %r, decode table maps %r to %r" % (name, nm, encd.get(nm), val, nm),
                           {"kind": "lookup", "table": name, "name": nm, "value": val})
+    # (Dt) a DATE given as a `date` value (no raw value): the real encode_date on the date the real decode_date returns for a
+    # symbolic day count gives that day count back, over the whole 16-bit DATE domain (calendar arithmetic as terms over the ordinal)
+    try:
+        U = H.R.utils
+        days = SymInt.var("days", 20)
+        ddom = [days.t >= 0, days.t <= 65532]
+        dpaths, _ex = explore(lambda: U.encode_date(U.decode_date(days)), max_paths=64, assumptions=ddom)
+        for pa in dpaths:
+            st0, m0 = satisfiable(z3.And(pa.cond(), *ddom))
+            if st0 != "sat":
+                continue
+            if pa.kind != "return":
+                rep.violation({"kind": "date-value-path"}, "encode_date(decode_date(%d)) raises %r" % (m0.eval(days.t, True).as_long(), pa.value),
+                              {"kind": "date_value", "days": m0.eval(days.t, True).as_long()})
+                continue
+            st, mm = prove(truth(SymInt.lift(pa.value) == days), ddom + list(pa.pc), label="encode_date o decode_date")
+            if st == "sat":
+                dv = mm.eval(days.t, True).as_long()
+                rep.violation({"kind": "date-value-path"}, "a DATE given as a value (no raw value): day %d since 1970 is not encoded as %d" % (dv, dv), {"kind": "date_value", "days": dv})
+            elif st == "unknown":
+                rep.inconc("encode_date o decode_date undecided")
+    except Unsupported as e:
+        rep.inconc("encode_date o decode_date: %s" % (e,))
     rep.count("definitions", nd)
     rep.count("fields", nf)
     rep.count("encode_number_signatures", len(sigs))
@@ -494,6 +517,12 @@ def replay(r):
         return not (got is not None and D.lookups[r["table"]].get(got) == r["name"]), "encode table gives %r" % (got,)
     if k == "encode_number":
         return replay_encode_number(N, r)
+    if k == "date_value":
+        try:
+            got = N.utils.encode_date(N.utils.decode_date(r["days"]))
+        except Exception as e:
+            return True, "raised %r" % (e,)
+        return got != r["days"], "encode_date(decode_date(%d)) = %r" % (r["days"], got)
     p = [q for q in D.pgns if q.id == r["def"]][0]
     suffix = D.func_suffix(p)
     dec, enc = N.pgns.__dict__["decode_pgn_%s" % suffix], N.encoder.NMEA2000Encoder()
